@@ -306,9 +306,17 @@ static int new_packet(int sk_fd, int timer_fd)
     memset(pdu, 0, PDU_SIZE);
 
     n = recv(sk_fd, pdu, PDU_SIZE, 0);
-    if (n < 0 || n != PDU_SIZE) {
+    if (n < 0) {
         perror("Failed to receive data");
         return -1;
+    }
+
+    /* A datagram of another size is not a PDU of this stream: drop it, the
+     * listener keeps running (a negative return value ends the main loop).
+     */
+    if (n != PDU_SIZE) {
+        fprintf(stderr, "Dropping packet of unexpected size\n");
+        return 0;
     }
 
     if (!is_valid_packet(pdu)) {
